@@ -123,9 +123,7 @@ CLAIMED.update({
     ),
 })
 
-NOT_APPLICABLE = {
-    "C07": "relational equality of the behaviour of four declaration styles implemented in four modules; no clause is visible in the shape of any one code path, and the only structural candidate (prefixing consistency in _move_parser_actions) is a lint whose violation need not change behaviour (DESIGN.md section 3 / C07)",
-}
+NOT_APPLICABLE = {}
 
 PENDING = "check not built yet in this session (planned in DESIGN.md section 3); listed here until its rules exist so that nothing is claimed without a deciding check"
 
@@ -142,6 +140,12 @@ CLAIMED.update({
 })
 
 CLAIMED.update({
+    "C07": (
+        "syntax-directed rules with one level of callee inlining (the loop arm that delegates to ActionYesNo._add_dest_prefix is read with its parameter bound to what is passed) and CFG reachability / must-pass queries over the functions that reduce the declaration styles to flat dotted actions (static, ast)",
+        "Narrow: the four declaration styles are not four implementations - dataclass-typed arguments, class arguments under a key and inner parsers are REDUCED to flat actions with dest <key>.<name>, option --<key>.<name>, plus one whole-group loader action under <key>. Decides that every reduction step produces that common representation: add_argument moves an inner parser / delegates a dataclass-like type to add_class_arguments under the key named by the option (with the remaining keyword arguments) before the generic type-hint arm, and leaves afterwards; _add_signature_parameter forms dest = key + '.' + name and option '--' + dest; _move_parser_actions prefixes EVERY action of the inner parser (no filter but the default helper actions, no early exit) - dest with the dest form of the key (dashes replaced), option strings with the raw key, through every arm of the loop including the helper of the yes/no action -, re-keys the option-string table with the same function, prefixes group dests, and extends the outer parser's four tables on every normal path; both group-producing styles add an _ActionConfigLoad under exactly the key; filter_default_actions applies one class test to lists and mappings. Not decided: equality of parse results, accept/reject decisions and dumps over all inputs; help output; positional arguments.",
+        "First listed as not applicable ('relational equality of four modules'); revised after reading the mechanisms: the equality is obtained by reduction to one representation, and the reduction steps are shape-visible. Found F55 (yes/no action of a moved parser under a key with a dash), fixed 2f2aff3 (DESIGN.md section 8.7).",
+        "DESIGN.md section 8.7 / C07",
+    ),
     "C13": (
         "syntax-directed rules and CFG must-pass-through queries over the library's own parameter resolver (jsonargparse/_parameter_resolvers.py; static, ast); constructs identified by role (callee names, kinds, slice bounds), not by position or local names",
         "Narrow: decides structural necessary conditions of the property inside the resolver - hard-coded arguments of a forwarding call are removed on every path (by position, without starred arguments, and by keyword, without the ** entry) and names removed by keyword are filtered after grouping; only POSITIONAL_ONLY parameters replace *args and only KEYWORD_ONLY / POSITIONAL_OR_KEYWORD ones replace **kwargs; the var slot is cut out exactly ([:i] + new + [i + 1:]), only when it exists, with the kwargs index moved by len(args) - 1; names already present are not offered twice; name / annotation / default / kind of a resolved parameter come from one inspect.Parameter, self is dropped only for methods and before the slot indexes are taken; kwargs.pop/get recognition (receiver, method set, constant name, default, kind); MRO index arithmetic of super() handling (search from idx, record idx + offset, continue at idx + 1 with the absolute counter, record before recursing, skip inherited methods); the resolver chain falls through on any exception, stops at the first non-None answer, source before stubs before assumptions; polarity of constant-folded if tests; complementarity of the conditional-parameter tests. Not decided: that the recognised AST patterns cover every way a user program forwards **kwargs (the property's quantifier over programs), the stub / pydantic / attrs resolvers, postponed annotations, the consumer side in _signatures.py.",
